@@ -43,6 +43,41 @@ def check_spec(spec, res, runner_name):
         res.fail(kind="oracle", function="GraphNode / input_spec / graph-node executor", what=pb, runner=runner_name, replay={"harness": "C05", "spec": spec, "runner": runner_name})
 
 
+def check_shared_default(depth, res, runner_name):
+    """Defaults inside inner graphs: two inner consumers of one parameter with a MUTABLE signature default that they mutate.
+    Inlined, each node gets its own copy per run; wrapped (to any depth) it must be the same."""
+    from hypergraph import Graph, node
+    from harness.core import run_sync, run_async, set_case
+    set_case("C05", {"shared_default": depth}, runner_name)
+    run = run_sync if runner_name == "sync" else run_async
+
+    def mk():
+        @node(output_name="p")
+        def first(x, acc=[]):  # noqa: B006 - the mutable default is the point
+            acc.append(x)
+            return list(acc)
+
+        @node(output_name="q")
+        def second(p, acc=[]):  # noqa: B006
+            acc.append(len(p))
+            return list(acc)
+        return [first, second]
+
+    flat = Graph(mk())
+    g = Graph(mk(), name="inner0")
+    for d in range(depth):
+        g = Graph([g.as_node()], name=f"wrap{d}")
+    ref, out = run(flat, {"x": 1}), run(g, {"x": 1})
+    again = run(g, {"x": 1})
+    res.case(repr(("shared_default", depth, runner_name)), nontrivial=True, sample={"depth": depth, "runner": runner_name, "flat": ref, "nested": out})
+    rep = {"harness": "C05", "spec": {"shared_default": depth}, "runner": runner_name}
+    if out != ref or again != ref:
+        res.fail(kind="oracle", function="collect_inputs_for_node / graph-node executor (defaults inside inner graphs)",
+                 what=f"mutable signature default shared between the inner consumers at nesting depth {depth}: flat {ref['values']}, nested {out['values']}, nested again {again['values']}", runner=runner_name, replay=rep)
+    if set(g.inputs.required) != set(flat.inputs.required) or set(g.inputs.optional) != set(flat.inputs.optional):
+        res.fail(kind="oracle", function="compute_input_spec", what=f"input spec differs at depth {depth}: flat {flat.inputs.required}/{flat.inputs.optional}, nested {g.inputs.required}/{g.inputs.optional}", runner=runner_name, replay=rep)
+
+
 def run(tier, seed, functions):
     n = 200 if tier == "quick" else 3000
     res = Result("C05", "random DAGs (<=4 nodes) x dependency-closed groups wrapped as a nested graph node (depth 1..2) x inner/outer bindings x wrapper rename histories "
@@ -53,10 +88,16 @@ def run(tier, seed, functions):
         spec = nest.gen_spec(rng)
         check_spec(spec, res, "sync")
         check_spec(spec, res, "async")
+    for depth in (1, 2, 3):
+        for r in ("sync", "async"):
+            check_shared_default(depth, res, r)
     return res
 
 
 def replay(rep):
     res = Result("C05", "", {})
+    if "shared_default" in rep["spec"]:
+        check_shared_default(rep["spec"]["shared_default"], res, rep["runner"])
+        return [f["what"] for f in res.failures]
     check_spec(rep["spec"], res, rep["runner"])
     return [f["what"] for f in res.failures]
